@@ -69,6 +69,12 @@ def _make_objective(spec):
             z = (np.asarray(x, dtype=float) - lo) / (hi - lo)
             return float("inf") if z[0] > 0.85 else four(x)
 
+    elif kind == "jackpot":  # the best possible value (-inf when minimising) on a small part of the domain
+
+        def f(x):
+            z = (np.asarray(x, dtype=float) - lo) / (hi - lo)
+            return float("-inf") if float(np.sum((z - 0.3) ** 2)) < 0.02 else four(x)
+
     elif kind == "holes":  # NaN on a slab of the domain (legal input: NaN is ordered as worst)
 
         slab_lo, slab_hi = spec.get("nan_slab", (0.4, 0.6))
@@ -245,7 +251,11 @@ def rand_spec(rng, **force):
             L["lsc"] = {"kind": "DontStop"}
             L["maxiter"] = int(rng.integers(2, 8))
             # scipy methods that take bounds; the derivative-free ones may ask for the same point twice
-            L["method"] = str(rng.choice(["L-BFGS-B", "L-BFGS-B", "Nelder-Mead", "Powell"]))
+            # (BFGS / CG ignore the bounds scipy is given: the deme's own clipping is all there is; SLSQP may
+            # return a point it never reported to the callback.  COBYLA is left out of the random mix: its
+            # callback reports points one ulp away from the ones it evaluated (PRIMA's internal scaling), which
+            # pyhms records as they come — see DESIGN.md §3; it has a slice of its own in the C02 check)
+            L["method"] = str(rng.choice(["L-BFGS-B", "L-BFGS-B", "Nelder-Mead", "Powell", "BFGS", "CG", "SLSQP", "SLSQP"]))
         levels.append(L)
     limit = int(rng.integers(1, 5))
     sk = int(rng.integers(0, 7))
@@ -455,6 +465,8 @@ def build(spec, run, plain=None):
                 dfs.append(F.FarEnough(s["far_enough"], s["norm_ord"]))
             elif f == "demelimit":
                 dfs.append(F.DemeLimit(s["deme_limit"]))
+            elif f == "mahalanobis":  # monitor-only runs: the model does not know this filter
+                dfs.append(F.MahalanobisFarEnough(s.get("percentile", 0.95)))
         tfs = []
         for f in s["tree_filters"]:
             tfs.append(F.SkipSameSprout() if f == "skipsame" else F.LevelLimit(s["level_limit"]))
@@ -808,19 +820,47 @@ def round_env(run, tree):
     return env
 
 
-def plain_run(spec, kind="callable"):
-    """untraced run of a spec by stepping (used by twin-run checks); returns the final snapshot"""
+def look_at(tree):
+    """read every report and query accessor of a tree (what an observer between two metaepochs would do)"""
+    def safe(f):
+        try:
+            return f()
+        except Exception:  # noqa: BLE001 (an accessor that raises is none of the observer's business)
+            return None
+
+    safe(tree.summary)
+    safe(tree.tree)
+    safe(lambda: tree.best_individual)
+    safe(lambda: tree.all_individuals)
+    safe(lambda: tree.r5s_solutions)
+    for _, d in tree.all_demes:
+        safe(lambda d=d: d.best_individual)
+        safe(lambda d=d: d.best_current_individual)
+        safe(lambda d=d: d.centroid)
+        safe(lambda d=d: d.all_individuals)
+        safe(lambda d=d: d.best_fitness_by_metaepoch)
+
+
+def plain_run(spec, kind="callable", observe=False):
+    """untraced run of a spec by stepping (used by twin-run checks); returns the final snapshot.
+    observe=True: after construction and after every step all reports / query accessors are read."""
     import pyhms.tree as T
     from pyhms.config import TreeConfig
 
     o = build(spec, None, plain=kind)
     opts = {"random_seed": spec["seed"], "hibernation": spec["hibernation"]}
     tree = T.DemeTree(TreeConfig(o["levels"], o["gsc"], o["sm"], options=opts, config_class_to_deme_class=o["custom"]))
+    if observe:
+        look_at(tree)
     steps = 0
     while not tree._gsc(tree) and steps < spec["max_steps"]:
         tree.run_step()
         steps += 1
-    return snap_tree(tree, [])
+        if observe:
+            look_at(tree)
+    snap = snap_tree(tree, [])
+    snap["centroids"] = [(d.id, None if d.centroid is None else [float(t) for t in d.centroid]) for _, d in tree.all_demes]
+    return snap
 
 
 def run_spec(spec, **kw):
@@ -1011,7 +1051,7 @@ def _nan_monitor_worker(args):
     return r
 
 
-def nan_monitor_batch(ctx, pid, n, salt=53, name=None):
+def nan_monitor_batch(ctx, pid, n, salt=53, name=None, force=None):
     """monitored runs on an objective with NaN holes (NaN is a legal fitness: it is ordered as worst,
     two NaNs by a coin flip).  Monitors only — the model cannot follow a random ordering."""
     from .common import Slice, pmap
@@ -1023,7 +1063,9 @@ def nan_monitor_batch(ctx, pid, n, salt=53, name=None):
     specs = []
     for i in range(n):
         nlev = int(rng.choice([1, 2, 2, 3]))
-        spec = rand_spec(rng, objective="holes", nlev=nlev, engines={l: NAN_SAFE_ENGINES for l in range(4)}, max_steps=8)
+        kw = dict(objective="holes", nlev=nlev, engines={l: NAN_SAFE_ENGINES for l in range(4)}, max_steps=8)
+        kw.update(force(rng) if callable(force) else (force or {}))
+        spec = rand_spec(rng, **kw)
         if i % 2:
             spec["nan_slab"] = (0.15, 0.85)
         if spec["gsc"]["kind"] == "SingularProblemPrecisionReached":
